@@ -125,6 +125,9 @@ func c07Recipe(c *core.Ctx, r ref.CharRecipe, brute bool) {
 }
 
 func c07Run(c *core.Ctx) {
+	if !charPairs(c) {
+		return
+	}
 	// (a) small universe, every overlap pattern
 	u := []string{"a", "b", "c", "d"}
 	maxSets := 2
